@@ -27,6 +27,7 @@ class Project(object):
         self._norm_cache = {}  # type: dict[str, list[str]]
         self._module_cache = {}  # type: dict[str, ImportedModule | SourceModule]
         self._context_cache = {}  # type: dict[str, ImportedModule | SourceModule]
+        self._missing_modules = set()  # type: set[str]
         self.dyn_modules = set(dyn_modules or [])
 
     def get_path(self):
@@ -105,7 +106,34 @@ class Project(object):
         # when any source file changed, none of them can be trusted
         if any(m.changed for m in list(self._module_cache.values())):
             self._module_cache.clear()
+        # ... and neither can they when a module they failed to import
+        # has appeared since
+        if any(self.find_module_file(name)[0] for name in self._missing_modules):
+            self._module_cache.clear()
+            self._missing_modules.clear()
         yield
+
+    def find_module_file(self, name):
+        # type: (str) -> tuple[str | None, bool]
+        parts = name.split('.')
+        if len(parts) > 1:
+            pkg_dir = self.find_package_dir(parts[:-1])
+            path = pkg_dir and [pkg_dir] or []
+        else:
+            path = self.get_path()
+
+        for p in path:
+            mpath = os.path.join(p, parts[-1])
+            for s in SUFFIXES:
+                fname = mpath + s
+                if os.path.exists(fname):
+                    return fname, s in SOURCE_SUFFIXES
+
+            fname = os.path.join(mpath, '__init__.py')
+            if os.path.exists(fname):
+                return fname, True
+
+        return None, False
 
     def get_nmodule(self, name, filename):
         # type: (str, str) -> SourceModule | ImportedModule
@@ -128,31 +156,7 @@ class Project(object):
         except KeyError:
             pass
 
-        parts = name.split('.')
-        if len(parts) > 1:
-            pkg_dir = self.find_package_dir(parts[:-1])
-            path = pkg_dir and [pkg_dir] or []
-        else:
-            path = self.get_path()
-        filename = None
-        is_source = False
-        for p in path:
-            mpath = os.path.join(p, parts[-1])
-            for s in SUFFIXES:
-                fname = mpath + s
-                if os.path.exists(fname):
-                    filename = fname
-                    is_source = s in SOURCE_SUFFIXES
-                    break
-            else:
-                fname = os.path.join(mpath, '__init__.py')
-                if os.path.exists(fname):
-                    filename = fname
-                    is_source = True
-                    break
-
-            if filename:
-                break
+        filename, is_source = self.find_module_file(name)
 
         module = None  # type: SourceModule | ImportedModule | None
         if not filename:
@@ -167,6 +171,8 @@ class Project(object):
                 module = SourceModule(self, name, filename)
 
         if not module:
+            # cached analyses may have recorded the failure
+            self._missing_modules.add(name)
             raise ImportError(name)
 
         self._module_cache[name] = module
